@@ -82,6 +82,10 @@ def build(seed, i, tier, readers=0, families=None, ctx=None):
                     break
             else:
                 name, args = ("setitem", ["x", fresh.int()]) if k == "dict" else ("append", [fresh.int()])
+            if rs.random() < 0.07:
+                name, args = _thr.gen_rejected_op(rs, k, ns.families[fam]["attr"])
+                ops.append({"h": h, "name": name, "args": args, "rejected": True})
+                continue
             ops.append({"h": h, "name": name, "args": args})
         progs.append(ops)
     r = rs.random()
